@@ -709,7 +709,9 @@ def judge_pair(fnd, hist, key, op, a, b, allowed, top_only, gen, rep, via=None, 
     hist.setdefault('_keys', set()).add(f'{key}|{via or op}|{len(wb)}|{len(sh)}')
     rep = dict(rep, via=via or op)
     if a is b:
-        fnd.add('operation returned the same object', op, key, '', f'{op} returned its argument', rep)
+        fnd.add('operation returned the same object', op, key, '',
+                f'{key}: {via or op}: the object handed out IS the source object itself '
+                f'({rep.get("container", "")}{" of entity " + str(rep["entity"]) if "entity" in rep else ""})', rep)
         return
     if top_only:
         # copy.copy is shallow by definition: only the top-level object must be a new one (rebinding stays private)
@@ -835,7 +837,8 @@ def stream_mdib():
     # 'entity.update' is a signature of its own: the known one-level copy of update_from_other_container does not
     # excuse an entity that shares objects with the mdib (Entity.update can take its values from a private copy)
     OP_OF = {'entities.by_handle': 'entity getter', 'entity.update': 'entity.update',
-             'entity.update [state refreshed with states.descriptor_handle.get_one]': 'entity.update'}
+             'entity.update [state refreshed with states.descriptor_handle.get_one]': 'entity.update',
+             'entity.update of an entity that is older than the mdib': 'entity.update'}
     handles = [d.Handle for d in mdib.descriptions.objects]
     for h in handles:
         e = mdib.entities.by_handle(h)
@@ -856,7 +859,251 @@ def stream_mdib():
             via = 'entity.update [state refreshed with states.descriptor_handle.get_one]'
             e.state.update_from_other_container(mdib.states.descriptor_handle.get_one(h))
         judge_entity(e, via)
+    # entities that are OLDER than the mdib: read, then transactions add / change / remove states, then update()
+    hist['stale_entities'] = 0
+    hist['stale_states_added'] = 0
+    pm_types = mdib.data_model.pm_types
+    for h in ctx_handles[:3]:
+        with mdib.context_state_transaction() as mgr:
+            doomed = mgr.mk_context_state(h).Handle
+        old = mdib.entities.by_handle(h)
+        known = set(old.states)
+        with mdib.context_state_transaction() as mgr:
+            new_state = mgr.mk_context_state(h)
+            new_state.Identification = [pm_types.InstanceIdentifier('urn:verif:c12', extension_string='new')]
+            new_state.Validator = [pm_types.InstanceIdentifier('urn:verif:c12', extension_string='validator')]
+            changed = mgr.get_context_state(next(x for x in sorted(known) if x != doomed))
+            changed.Identification = [pm_types.InstanceIdentifier('urn:verif:c12', extension_string='changed')]
+        remover = mdib.entities.by_handle(h)
+        remover.states.pop(doomed)
+        with mdib.context_state_transaction() as mgr:
+            mgr.write_entity(remover, [doomed])
+        try:
+            old.update()
+        except Exception as ex:  # noqa: BLE001
+            k = f'stale {type(old).__name__}: {type(ex).__name__}({str(ex)[:40]})'
+            hist['entity_update_raised'][k] = hist['entity_update_raised'].get(k, 0) + 1
+            continue
+        hist['stale_entities'] += 1
+        hist['stale_states_added'] += len(set(old.states) - known)
+        if doomed in old.states or new_state.Handle not in old.states:
+            fnd.add('refreshed entity does not follow the mdib', 'entity.update', X.class_key(type(old.descriptor)), '',
+                    f'entity {h}: after update() states = {sorted(old.states)}, mdib has '
+                    f'{sorted(x.Handle for x in mdib.context_states.descriptor_handle.get(h, []))}', {'entity': h})
+        judge_entity(old, 'entity.update of an entity that is older than the mdib')
+    singles = [x for x in handles if x not in ctx_handles]
+    RNG.shuffle(singles)
+    for h in singles[:12]:
+        old = mdib.entities.by_handle(h)
+        if old is None or old.is_multi_state:
+            continue
+        st = mdib.states.descriptor_handle.get_one(h)
+        txn = next((n for flag, n in (('is_realtime_sample_array_metric_state', 'rt_sample_state_transaction'),
+                                      ('is_metric_state', 'metric_state_transaction'),
+                                      ('is_alert_state', 'alert_state_transaction'),
+                                      ('is_component_state', 'component_state_transaction'),
+                                      ('is_operational_state', 'operational_state_transaction'))
+                    if getattr(st, flag, False)), None)
+        if txn is None:
+            continue
+        try:
+            with getattr(mdib, txn)() as mgr:
+                s2 = mgr.get_state(h)
+                s2.Extension.append(etree.Element('{urn:verif:c12}changed'))
+            old.update()
+        except Exception as ex:  # noqa: BLE001
+            k = f'stale {type(old).__name__}: {type(ex).__name__}({str(ex)[:40]})'
+            hist['entity_update_raised'][k] = hist['entity_update_raised'].get(k, 0) + 1
+            continue
+        hist['stale_entities'] += 1
+        judge_entity(old, 'entity.update of an entity that is older than the mdib')
     return {'findings': fnd.items, 'finding_counts': {' | '.join(k): v for k, v in fnd.keys.items()},
+            'keys': sorted(hist.pop('_keys', ())), 'hist': hist}
+
+
+# --------------------------------------------------------------------------- the containers INSIDE a set-up mdib
+def table_containers(mdib, prefix=''):
+    out = []
+    for tname in ('descriptions', 'states', 'context_states'):
+        for c in getattr(mdib, tname).objects:
+            h = getattr(c, 'Handle', None) if tname != 'states' else None
+            out.append((f'{prefix}{tname}[{h or getattr(c, "DescriptorHandle", None)}] {type(c).__name__}', c))
+    return out
+
+
+def judge_tables(fnd, hist, mdibs, mdib_file, stage, reported=None):
+    """no mutable object is reachable from two different containers of the tables (descriptions, states,
+    context_states) of the given mdib(s); by design: state.descriptor_container, the element `node` points to"""
+    owner = {}
+    n_obj = 0
+    conts = [x for prefix, m in mdibs for x in table_containers(m, prefix)]
+    roots = {id(c) for _, c in conts}
+    for label, c in conts:
+        for p, d, v in walk(c):
+            n_obj += 1
+            o = owner.get(id(v))
+            if o is None:
+                owner[id(v)] = (label, p)
+            elif o[0] != label:
+                if reported is not None:
+                    if id(v) in reported:          # already reported at the stage where it first appeared
+                        continue
+                    reported[id(v)] = v
+                hist.setdefault('_flagged', set()).update((label, o[0]))
+                what = 'a container of the mdib is reachable from another container' if id(v) in roots else \
+                    'two containers of an mdib share a mutable object'
+                fnd.add(what, stage, X.class_key(type(c)), p,
+                        f'{mdib_file} after {stage}: {label}{p} ({type(v).__name__}) IS {o[0]}{o[1]}',
+                        {'mdib_file': mdib_file, 'stage': stage, 'container': label, 'path': p,
+                         'same_object_as': f'{o[0]}{o[1]}',
+                         'ops': [f'mdib = {stage}', f'a = {o[0]}', f'b = {label}', f'assert b{p} is not a{o[1]}']})
+    hist['containers'] += len(conts)
+    hist['objects_registered'] += n_obj
+    hist['stages'][stage] = hist['stages'].get(stage, 0) + 1
+    hist.setdefault('_keys', set()).add(f'{mdib_file}|{stage}|{len(conts)}|{n_obj}')
+    return conts
+
+
+def sweep_tables(fnd, hist, conts, mdib_file, stage, gen, k):
+    """in-place mutation of everything reachable from one container leaves the value of all the others unchanged"""
+    order = list(range(len(conts)))
+    RNG.shuffle(order)
+    # the richest container (most nested mutable objects) of every class, richest classes first; then random ones
+    size = {i: len(walk(conts[i][1])) for i in order}
+    best = {}
+    for i in order:
+        t = type(conts[i][1])
+        if t not in best or size[i] > size[best[t]]:
+            best[t] = i
+    flagged = hist.get('_flagged', set())
+    pick = [i for i in order if conts[i][0] in flagged][:max(1, k // 2)]      # confirm identity findings by value
+    pick += [i for i in sorted(best.values(), key=lambda i: -size[i]) if i not in pick][:max(1, k // 2)]
+    pick = (pick + [i for i in order if i not in pick])[:max(k, len(pick))]
+    snaps = [snap(c) for _, c in conts]
+    for i in pick:
+        label, c = conts[i]
+        log = []
+        m = Mutator(c, gen, log.append, label)
+        try:
+            hist['mutations'] += m.run()
+        except Exception as ex:  # noqa: BLE001
+            hist['sweep_failed'] = hist.get('sweep_failed', 0) + 1
+            log.append(f'(mutation sweep stopped: {type(ex).__name__})')
+        for j, (lj, cj) in enumerate(conts):
+            if j == i:
+                snaps[j] = snap(cj)
+                continue
+            hist['watch_evaluations'] += 1
+            sj = snap(cj)
+            if sj != snaps[j]:
+                fnd.add('in-place change of one container of the mdib visible in another', stage, X.class_key(type(c)),
+                        label, f'{mdib_file} after {stage}: in-place mutation of {label} changed {lj}: '
+                        f'{snap_diff(snaps[j], sj)}',
+                        {'mdib_file': mdib_file, 'stage': stage, 'mutated': label, 'changed': lj,
+                         'difference': snap_diff(snaps[j], sj), 'ops': log[:60]})
+                snaps[j] = sj
+
+
+def stream_tables():
+    import os
+    import pathlib
+    from sdc11073.definitions_sdc import SdcV1Definitions
+    from sdc11073.location import SdcLocation
+    from sdc11073.mdib.providermdib import ProviderMdib
+    fnd = Findings()
+    hist = {'files': 0, 'containers': 0, 'objects_registered': 0, 'stages': {}, 'stage_failed': {}, 'mutations': 0,
+            'watch_evaluations': 0, 'alert_systems': {}, 'worlds': 0}
+    gen = G.Gen(random.Random(RNG.randrange(1 << 30)), max_depth=2, max_list=2, exotic=0.0)
+    tests = pathlib.Path(os.environ.get('VERIF_REPO', '/repo')) / 'tests'
+    files = sorted(f.name for f in tests.glob('*.xml') if b'Mdib' in f.read_bytes()[:4000])
+    if req.get('table_files'):
+        files = [f for f in files if f in req['table_files']]
+    k = req.get('table_sweep', 8)
+
+    def attempt(mdib_file, stage, f):
+        try:
+            return f()
+        except Exception as ex:  # noqa: BLE001   this file / this set-up does not support the step: counted, not judged
+            key = f'{mdib_file}: {stage}: {type(ex).__name__}({str(ex)[:60]})'
+            hist['stage_failed'][key] = hist['stage_failed'].get(key, 0) + 1
+            return None
+
+    for mdib_file in files:
+        hist['files'] += 1
+        reported = {}
+        data = (tests / mdib_file).read_bytes()
+        a = attempt(mdib_file, 'from_mdib_file', lambda: ProviderMdib.from_mdib_file(str(tests / mdib_file),
+                                                                                     protocol_definition=SdcV1Definitions))
+        if a is None:
+            continue
+        hist['alert_systems'][mdib_file] = sum(1 for d in a.descriptions.objects
+                                               if d.NODETYPE.localname == 'AlertSystemDescriptor')
+        judge_tables(fnd, hist, [('', a)], mdib_file, 'ProviderMdib.from_mdib_file', reported)
+        b = attempt(mdib_file, 'from_string', lambda: ProviderMdib.from_string(data))
+        if b is not None:
+            judge_tables(fnd, hist, [('', b)], mdib_file, 'ProviderMdib.from_string', reported)
+            judge_tables(fnd, hist, [('A.', a), ('B.', b)], mdib_file, 'two mdibs read from the same bytes', reported)
+        for name in ('ensure_location_context_descriptor', 'ensure_patient_context_descriptor',
+                     'mk_state_containers_for_all_descriptors', 'set_states_initial_values',
+                     'update_retrievability_lists', 'set_all_source_mds'):
+            if attempt(mdib_file, f'xtra.{name}', lambda name=name: (getattr(a.xtra, name)(), True)) is not None:
+                judge_tables(fnd, hist, [('', a)], mdib_file, f'xtra.{name}', reported)
+        loc_descrs = [d.Handle for d in a.descriptions.objects if d.NODETYPE.localname == 'LocationContextDescriptor']
+        for n, h in enumerate(loc_descrs * 2):
+            attempt(mdib_file, 'xtra.set_location', lambda n=n, h=h: a.xtra.set_location(
+                SdcLocation(fac='f', poc=f'p{n}', bed='b'), location_context_descriptor_handle=h))
+        for d in [d for d in a.descriptions.objects if d.is_context_descriptor]:
+            def mk(d=d):
+                with a.context_state_transaction() as mgr:
+                    mgr.mk_context_state(d.Handle, set_associated=True)
+                    mgr.mk_context_state(d.Handle)
+            attempt(mdib_file, 'context_state_transaction', mk)
+        conts = judge_tables(fnd, hist, [('', a)], mdib_file, 'xtra.set_location + context state transactions', reported)
+        sweep_tables(fnd, hist, conts, mdib_file, 'ProviderMdib set-up (from_mdib_file, xtra methods, set_location)', gen, k)
+    # a started provider (tests.mockstuff.SomeDevice with the tutorial role providers) and a consumer mdib
+    world_files = [f for f in files if f in req.get('world_files', files)]
+    for mdib_file in world_files:
+        def start(mdib_file=mdib_file):
+            from world import World
+            return World(mdib_file=mdib_file)
+        w = attempt(mdib_file, 'SdcProvider start', start)
+        if w is None:
+            continue
+        hist['worlds'] += 1
+        reported = {}
+        pm = w.provider.mdib
+        judge_tables(fnd, hist, [('', pm)], mdib_file, 'SdcProvider.start_all (tutorial role providers)', reported)
+        attempt(mdib_file, 'SdcProvider.set_location', lambda: w.provider.set_location(SdcLocation(fac='f', poc='p', bed='b')))
+        attempt(mdib_file, 'SdcProvider.set_location', lambda: w.provider.set_location(SdcLocation(fac='f', poc='q', bed='b')))
+        judge_tables(fnd, hist, [('', pm)], mdib_file, 'SdcProvider.set_location', reported)
+        cm = attempt(mdib_file, 'ConsumerMdib.init_mdib', lambda: w.consumer_mdib(w.add_consumer()))
+        if cm is not None:
+            judge_tables(fnd, hist, [('', cm)], mdib_file, 'ConsumerMdib.init_mdib', reported)
+            judge_tables(fnd, hist, [('provider.', pm), ('consumer.', cm)], mdib_file, 'provider mdib and consumer mdib', reported)
+
+            def reports():
+                pmt = pm.data_model.pm_types
+                for tname, flag in (('metric_state_transaction', 'is_metric_state'), ('alert_state_transaction', 'is_alert_state'),
+                                    ('component_state_transaction', 'is_component_state')):
+                    hs = [s.DescriptorHandle for s in pm.states.objects if getattr(s, flag, False)
+                          and not getattr(s, 'is_realtime_sample_array_metric_state', False)][:6]
+                    with getattr(pm, tname)() as mgr:
+                        for h in hs:
+                            mgr.get_state(h).Extension.append(etree.Element('{urn:verif:c12}report'))
+                for d in [d for d in pm.descriptions.objects if d.NODETYPE.localname == 'PatientContextDescriptor']:
+                    with pm.context_state_transaction() as mgr:
+                        st = mgr.mk_context_state(d.Handle, set_associated=True)
+                        st.Identification = [pmt.InstanceIdentifier('urn:verif:c12', extension_string='1')]
+                return True
+            if attempt(mdib_file, 'reports', reports):
+                judge_tables(fnd, hist, [('', pm)], mdib_file, 'provider mdib after state transactions', reported)
+                conts = judge_tables(fnd, hist, [('', cm)], mdib_file, 'consumer mdib after reports', reported)
+                sweep_tables(fnd, hist, conts, mdib_file, 'consumer mdib after reports', gen, k)
+        conts = table_containers(pm)
+        sweep_tables(fnd, hist, conts, mdib_file, 'started provider mdib', gen, k)
+        attempt(mdib_file, 'stop', w.stop)
+    hist.pop('_flagged', None)
+    return {'findings': fnd.items, 'finding_counts': {' | '.join(k2): v for k2, v in fnd.keys.items()},
             'keys': sorted(hist.pop('_keys', ())), 'hist': hist}
 
 
@@ -874,5 +1121,11 @@ if req.get('sep', True):
     out['sep'] = guarded(stream_sep)
 if req.get('mdib', True):
     out['mdib'] = guarded(stream_mdib)
+if req.get('tables', False):
+    out['tables'] = guarded(stream_tables)
 out['opaque_types'] = OPAQUE
 print(json.dumps(out, default=str))
+sys.stdout.flush()
+if req.get('tables', False):
+    import os
+    os._exit(0)      # provider / consumer worker threads would delay the exit
